@@ -1,5 +1,6 @@
 //! Rust-side engines (exhaustive enumerations with in-Rust reference models) and shared helpers.
 pub mod c11;
+pub mod c15;
 #[cfg(feature = "fmt")]
 pub mod fmtops;
 
@@ -20,6 +21,7 @@ pub fn main(args: &[String]) {
     let kv = parse_kv(&args[1.min(args.len())..]);
     let _ = &kv;
     match name {
+        "c15" => println!("{}", c15::run(&kv)),
         _ => {
             eprintln!("unknown engine {}", name);
             std::process::exit(2);
@@ -83,4 +85,62 @@ pub fn scrub_debug(s: &str, erase_ctx: bool) -> String {
         i += ch.len_utf8();
     }
     out
+}
+
+
+/// What an engine covered and what failed; printed as one JSON object.
+#[derive(Default)]
+pub struct Report {
+    pub evaluations: u64,
+    pub nontrivial: u64,
+    pub states: u64,
+    pub transitions: u64,
+    pub by_bound: BTreeMap<String, u64>,
+    pub outcomes: BTreeMap<String, u64>,
+    pub fail_counts: BTreeMap<String, u64>,
+    pub fails: Vec<(String, String, String, String)>,
+    pub samples: Vec<String>,
+}
+
+const MAX_FAILS_PER_SIG: u64 = 2000;
+
+impl Report {
+    pub fn fail(&mut self, sig: &str, input: &str, obs: &str, refv: &str) {
+        let c = self.fail_counts.entry(sig.to_string()).or_insert(0);
+        *c += 1;
+        if *c <= MAX_FAILS_PER_SIG {
+            self.fails.push((sig.to_string(), input.to_string(), obs.to_string(), refv.to_string()));
+        }
+    }
+    pub fn outcome(&mut self, o: &str) {
+        *self.outcomes.entry(o.to_string()).or_insert(0) += 1;
+    }
+    pub fn merge(&mut self, o: Report) {
+        self.evaluations += o.evaluations;
+        self.nontrivial += o.nontrivial;
+        self.states += o.states;
+        self.transitions += o.transitions;
+        for (k, v) in o.by_bound { *self.by_bound.entry(k).or_insert(0) += v; }
+        for (k, v) in o.outcomes { *self.outcomes.entry(k).or_insert(0) += v; }
+        for (k, v) in o.fail_counts { *self.fail_counts.entry(k).or_insert(0) += v; }
+        self.fails.extend(o.fails);
+        for s in o.samples { if self.samples.len() < 12 { self.samples.push(s); } }
+    }
+    pub fn to_json(&self) -> String {
+        use crate::dbg::json_str;
+        let map = |m: &BTreeMap<String, u64>| {
+            let v: Vec<String> = m.iter().map(|(k, v)| format!("{}:{}", json_str(k), v)).collect();
+            format!("{{{}}}", v.join(","))
+        };
+        let fails: Vec<String> = self
+            .fails
+            .iter()
+            .map(|(a, b, c, d)| format!("[{},{},{},{}]", json_str(a), json_str(b), json_str(c), json_str(d)))
+            .collect();
+        let samples: Vec<String> = self.samples.iter().map(|s| json_str(s)).collect();
+        format!(
+            "{{\"evaluations\":{},\"nontrivial\":{},\"states\":{},\"transitions\":{},\"by_bound\":{},\"outcomes\":{},\"fail_counts\":{},\"fails\":[{}],\"samples\":[{}]}}",
+            self.evaluations, self.nontrivial, self.states, self.transitions, map(&self.by_bound), map(&self.outcomes), map(&self.fail_counts), fails.join(","), samples.join(",")
+        )
+    }
 }
